@@ -20,7 +20,7 @@ SHARD = 150
 RULE = ('programs of 1-3 base tables (0-4 rows over columns k,v,w,x,..., ints and None, incl. duplicate column '
         'names) followed by op chains of length <= 4 drawn from 17 operation kinds with parameters taken from '
         'the live column list (plus some absent/ambiguous names); exhaustive part: every chain of length <= 2 over '
-        'a menu of 76 concrete operations on two fixed tables (thorough tier: all, quick tier: all of length 1 '
+        'a menu of 96 concrete operations (14 of them refer to a column in another letter case than the schema) on two fixed tables (thorough tier: all, quick tier: all of length 1 '
         'and a seed-dependent sample of length 2); every DataFrame of every program is observed; non-trivial = at '
         'least one operation step executed without error; distinct by canonical JSON of the program')
 ASSUMPTIONS = [
@@ -248,8 +248,10 @@ def observe(df, ordered, valued):
     rows = df.collect()
     cnt = df.count()
     rdd_rows = df.rdd.collect()
-    same = (len(rdd_rows) == len(rows) and all(
-        tuple(a) == tuple(b) and list(a.__fields__) == list(b.__fields__) for a, b in zip(rows, rdd_rows)))
+    rows2 = df.collect()
+    same = all(len(other) == len(rows) and all(
+        tuple(a) == tuple(b) and list(a.__fields__) == list(b.__fields__) for a, b in zip(rows, other))
+        for other in (rdd_rows, rows2))
     rs = [(list(r.__fields__), list(r)) for r in rows]
     for _, vals in rs:
         for v in vals:
@@ -324,7 +326,8 @@ def oracle(case, result):
         if cnt != len(rows):
             return (f'{site}:count-vs-collect', f'step {i}: count() = {cnt}, collect() has {len(rows)} rows')
         if not same:
-            return (f'{site}:rdd-vs-collect', f'step {i}: df.rdd.collect() differs from df.collect()')
+            return (f'{site}:rdd-vs-collect', f'step {i}: df.rdd.collect() or a second collect() differs from '
+                    'the first collect() of the same DataFrame')
     if isinstance(status, Err) and status.name in ('RecursionError', 'HarnessCrash'):
         return (f'{OPNAMES[case[len(obs)][0]]}:{status.name}', f'step {len(obs)} raised {status.name}')
     return None
@@ -365,6 +368,21 @@ def menu(s, others):
                  [sx(alias(add(k, v), 's'))], [sx(alias(k, 'v')), sx(v)], [sx(lit(1)), sx(lit(None))], [sx(neg(k))],
                  [sx(alias(mul(v, lit(2)), 'v'))], []):
         m.append((SELECT, s, cols))
+    K, V = col('K'), col('V')
+    m.append((SELECT, s, [sx(K)]))
+    m.append((SELECT, s, [sx(k), sx(V)]))
+    m.append((SELECT, s, [sx(add(K, lit(1)))]))
+    m.append((WITHCOL, s, 'K', lit(1)))
+    m.append((WITHCOL, s, 'n', K))
+    m.append((DROP, s, ['K']))
+    m.append((RENAME, s, 'K', 'y'))
+    m.append((JOIN, s, others[0], 0, ['K']))
+    m.append((AGG, s, [K], None, [(1, v, None)], 0))
+    m.append((AGG, s, [k], None, [(1, V, None)], 0))
+    m.append((AGG, s, [K], ('v', None), [(0, v, None), (1, v, None)], 0))
+    m.append((AGG, s, [k], ('V', ['x']), [(1, v, None)], 0))
+    m.append((SORT, s, [(K, True)]))
+    m.append((REPART, s, 2, [K]))
     for n, e in (('n', lit(1)), ('v', add(k, lit(1))), ('k', v), ('s', add(k, v))):
         m.append((WITHCOL, s, n, e))
     for cols in (['v'], ['k'], ['k', 'v'], ['*']):
@@ -384,6 +402,12 @@ def menu(s, others):
     m.append((JOIN, s, others[0], 2, ['v']))
     m.append((CROSS, s, others[0]))
     m.append((CROSS, s, s))
+    # the frame as SECOND operand of a fixed table
+    for how in (0, 2, 3):
+        m.append((JOIN, others[0], s, how, ['k']))
+    m.append((CROSS, others[0], s))
+    m.append((UNION, others[0], s))
+    m.append((UNIONBN, others[0], s))
     for o in (others[0], s):
         m.append((UNION, s, o))
         m.append((UNIONBN, s, o))
@@ -434,7 +458,7 @@ def exhaustive(rng, tier):
             pairs.append(base + [op1, op2])
     pairs = [p for p in pairs if ok_for_model(p)]
     if tier == 'quick':
-        pairs = rng.sample(pairs, 1400)
+        pairs = rng.sample(pairs, 1700)
     return cases + pairs
 
 
@@ -447,7 +471,7 @@ def rand_table(rng):
         a = rng.choice([0, 1, -2])
         return (RANGE, a, a + rng.choice([1, 2, 3, 5]), rng.choice([1, 2]), rng.choice([1, 2, 3]))
     ncol = rng.choice([1, 2, 2, 2, 3])
-    if rng.random() < 0.12:
+    if rng.random() < 0.2:
         names = [rng.choice(NAMES[:2]) for _ in range(ncol)]
     else:
         names = rng.sample(NAMES, ncol)
@@ -482,9 +506,17 @@ def rand_expr(rng, cols, depth=0):
     return alias(rand_expr(rng, cols, depth + 1), rng.choice(NAMES + ['s']))
 
 
+def other_case(n):
+    return n.upper() if n != n.upper() else n.lower()
+
+
 def rand_name(rng, cols, wild=0.06):
-    if cols and rng.random() > wild:
+    r = rng.random()
+    if cols and r > wild:
         return rng.choice(cols)
+    if cols and r > wild / 2:
+        # the right column in another letter case: names are matched exactly, so this must raise
+        return other_case(rng.choice(cols))
     return rng.choice(NAMES + ['zz'])
 
 
@@ -537,26 +569,25 @@ def rand_op(rng, s, cols, fl, n_frames):
         on_n = rng.choice([1, 1, 1, 1, 2, 0])
         on = []
         for _ in range(on_n):
-            on.append(rand_name(rng, cols, 0.04))
+            on.append(rand_name(rng, cols, 0.08))
+        if rng.random() < 0.25:
+            s, other = other, s
         return (JOIN, s, other, rng.randrange(6), on)
-    if op == CROSS:
-        return (CROSS, s, other)
-    if op == UNION:
-        return (UNION, s, other)
-    if op == UNIONBN:
-        return (UNIONBN, s, other)
+    if op in (CROSS, UNION, UNIONBN):
+        # either operand order: the frame under construction is also used as the second operand
+        return (op, s, other) if rng.random() < 0.7 else (op, other, s)
     if op == AGG:
         nk = rng.choice([0, 1, 1, 1, 2])
         keys = []
         for _ in range(nk):
-            keys.append(col(rand_name(rng, cols, 0.03)) if rng.random() < 0.8 else rand_expr(rng, cols, 1))
+            keys.append(col(rand_name(rng, cols, 0.07)) if rng.random() < 0.8 else rand_expr(rng, cols, 1))
         keys = [kx[1] if kx[0] == 5 else kx for kx in keys]
         aggs = [rand_agg(rng, cols) for _ in range(rng.choice([1, 1, 2, 2, 3]))]
         r = rng.random()
         pivot = None
         via = 0
         if r < 0.3 and cols:
-            pc = rand_name(rng, cols, 0.03)
+            pc = rand_name(rng, cols, 0.07)
             pr = rng.random()
             if pr < 0.45:
                 pv = None
@@ -571,7 +602,7 @@ def rand_op(rng, s, cols, fl, n_frames):
     if op == SORT:
         keys = []
         for _ in range(rng.choice([1, 1, 2])):
-            e = col(rand_name(rng, cols, 0.03)) if rng.random() < 0.75 else rand_expr(rng, cols, 1)
+            e = col(rand_name(rng, cols, 0.07)) if rng.random() < 0.75 else rand_expr(rng, cols, 1)
             if e[0] == 5:
                 e = e[1]
             keys.append((e, rng.random() < 0.6))
@@ -587,7 +618,7 @@ def rand_op(rng, s, cols, fl, n_frames):
         wr = rng.random() < 0.5
         return (SAMPLE, s, wr, rng.randrange(3), rng.choice([2, 2, 3, 0]) if wr else 2)
     if op == REPART:
-        cols_ = [] if rng.random() < 0.6 or not cols else [col(rand_name(rng, cols, 0.03))]
+        cols_ = [] if rng.random() < 0.6 or not cols else [col(rand_name(rng, cols, 0.07))]
         return (REPART, s, rng.choice([1, 2, 3, 4]), cols_)
     raise ValueError(op)
 
@@ -606,7 +637,10 @@ def random_program(rng, mods, max_ops=4):
         prog.append(ins)
         try:
             df = exec_step(ins, dfs, spark, mods)
-            df.collect()
+            if len(df.collect()) > 30:
+                # self joins / crossJoins multiply rows: keep the tables small
+                prog.pop()
+                return False
             c = [fld.name for fld in df._jdf.bound_schema.fields]
         except Exception:  # pylint: disable=broad-except
             return False
@@ -663,32 +697,77 @@ def generate(rng, tier):
 
 
 # ----------------------------------------------------------------------------------------------
-# oracle-only checks with the REAL samplers at interior fractions (row counts are not reproducible
-# in the model, the property's statement is checked on the implementation alone)
+# oracle-only checks with the REAL samplers (the model cannot predict which rows a sampler takes):
+#  (a) seeded samples at interior fractions, (b) UNSEEDED samples followed by further operations.
+# For every DataFrame built: the property's statement on the observation (all of count(), collect(),
+# df.rdd.collect() and a second collect() on the same object agree), two observations are equal, the
+# sample has the parent's columns and only rows of the parent (a sub-multiset without replacement).
+def _multiset(rows):
+    d = {}
+    for f, v in rows:
+        key = (tuple(f), tuple(v))
+        d[key] = d.get(key, 0) + 1
+    return d
+
+
+def _check_frame(df, site, note):
+    o = observe(df, True, True)
+    res = oracle([(SAMPLE, 0, False, 0, 1)], ([o], None))
+    if res is not None:
+        return o, (res[0].replace('sample:', site + ':'), f'{res[1]} ({note})')
+    o2 = observe(df, True, True)
+    if o != o2:
+        return o, (f'{site}:recomputation-differs', f'two evaluations of the same DataFrame differ ({note})')
+    return o, None
+
+
 def extra_checks(rng, tier, workdir):
     mods = _imports()
     Context, SparkSession, F = mods[0], mods[1], mods[2]
-    n = 60 if tier == 'quick' else 600
-    for _ in range(n):
+    n = 120 if tier == 'quick' else 1200
+    for it in range(n):
         spark = SparkSession(Context())
         t = rand_table(rng)
+        if t[0] == CREATE and len(t[3]) < 4:
+            # enough rows for two independent draws to differ
+            w = len(t[3][0]) if t[3] else len(t[2])
+            t = (t[0], t[1], t[2], t[3] + [[rng.choice(VALS[1:]) for _ in range(w)] for _ in range(4)])
         try:
             df = exec_step(t, [], spark, mods)
+            parent = observe(df, True, True)
         except Exception:  # pylint: disable=broad-except
             continue
-        wr = rng.random() < 0.5
-        frac = rng.choice([0.2, 0.5, 0.8, 1.5 if wr else 0.9])
-        seed = rng.randrange(1000)
-        sdf = df.sample(wr, frac, seed)
-        if rng.random() < 0.5:
-            sdf = sdf.withColumn('n', F.lit(1))
-        o = observe(sdf, True, True)
-        fake_case = [t, (SAMPLE, 0, wr, 0, 1)]
-        res = oracle(fake_case[1:], ([o], None))
-        if res is not None:
-            yield (res[0], 'real sampler', f'{res[1]} (sample({wr}, {frac}, {seed}))', [t])
-        # a seeded sample is the same on every evaluation
-        o2 = observe(sdf, True, True)
-        if o != o2:
-            yield ('sample:recomputation-differs', 'real sampler', f'sample({wr}, {frac}, {seed}) gave two different '
-                   'results on two evaluations', [t])
+        wr = rng.random() < 0.4
+        frac = rng.choice([0.3, 0.5, 0.7, 1.5 if wr else 0.6])
+        seeded = it % 2 == 0
+        seed = rng.randrange(1000) if seeded else None
+        call = f'sample({wr}, {frac}' + (f', {seed})' if seeded else ')  # no seed')
+        prog = [t, ('sample', wr, frac, seed)]
+        sdf = df.sample(wr, frac, seed) if seeded else df.sample(wr, frac)
+        o, bad = _check_frame(sdf, 'sample', call)
+        if bad is None:
+            if o[0] != parent[0]:
+                bad = ('sample:columns-changed', f'{call}: columns {o[0]} of parent {parent[0]}')
+            else:
+                pm, sm = _multiset(parent[2]), _multiset(o[2])
+                if any(key not in pm or (not wr and c > pm[key]) for key, c in sm.items()):
+                    bad = ('sample:rows-not-from-parent', f'{call}: sampled rows are not a sub-multiset of the parent')
+        if bad is not None:
+            yield (bad[0], 'real sampler', bad[1], prog)
+            continue
+        # further operations on top of the sample: every DataFrame down the chain must stay consistent
+        dfs, fl, cols = [sdf], [(True, True)], [list(o[0])]
+        for _ in range(rng.choice([0, 1, 2])):
+            ins = rand_op(rng, len(dfs) - 1, cols[-1], fl, len(dfs))
+            prog.append(ins)
+            try:
+                ndf = exec_step(ins, dfs, spark, mods)
+                o, bad = _check_frame(ndf, OPNAMES[ins[0]] + '-after-sample', call)
+            except Exception:  # pylint: disable=broad-except
+                break
+            if bad is not None:
+                yield (bad[0], 'real sampler', bad[1], prog)
+                break
+            dfs.append(ndf)
+            fl.append((True, True))
+            cols.append(list(o[0]))
